@@ -438,3 +438,17 @@ def corpus_fixture_shaders():
                 if f.endswith(".wgsl"):
                     out.append(os.path.join(p, f))
     return out
+
+
+def hash_hex(data):
+    """the driver's content hash (harness/drive/src/main.rs hash_hex), for comparing a string the
+    driver hashed with one the checker holds"""
+    M = (1 << 64) - 1
+    a, b = 0xcbf29ce484222325, 0x84222325cbf29ce4
+    for x in data:
+        a ^= x
+        a = (a * 0x100000001b3) & M
+        b = (b + x + 0x9e3779b97f4a7c15) & M
+        b ^= b >> 29
+        b = (b * 0xbf58476d1ce4e5b9) & M
+    return "%016x%016x%08x" % (a, b, len(data))
